@@ -150,9 +150,16 @@ func newVerdictWorld(c *ctx, kind string, hid int) *verdictWorld {
 	case "rlorigins":
 		x := newRLWorld(c)
 		names := map[string]string{"reg": x.origin, "long": rlLongOrigin, "prefix32": rlLongOrigin[:32], "dot": x.origin + ".",
-			"upper": strings.ToUpper(x.origin), "nul": x.origin + "\x00.attacker.example", "other": "unrelated.example"}
+			"upper": strings.ToUpper(x.origin), "nul": x.origin + "\x00.attacker.example", "other": "unrelated.example", "comma": x.origin + ",unregistered.example"}
+		// one client, and in every other history ONE request blind for all names (reusing a blind is the client's choice:
+		// requests that share their request key are still requests for different origins)
+		sharedBlind := randScalar(r)
 		for name, origin := range names {
-			st, err := type3.NewRateLimitedClientFromSecret(x.secret).CreateTokenRequest(randBytes(r, 9), randNonce(r), randScalar(r),
+			blind := sharedBlind
+			if hid%2 == 1 {
+				blind = randScalar(r)
+			}
+			st, err := type3.NewRateLimitedClientFromSecret(x.secret).CreateTokenRequest(randBytes(r, 9), randNonce(r), blind,
 				x.w.issuer.TokenKeyID(), x.w.issuer.TokenKey(), origin, x.w.issuer.NameKey())
 			if err != nil {
 				panic(err)
